@@ -415,7 +415,7 @@ def run(tier):
                 if not same:
                     menu_diffs += 1
                     found = True
-                    feats = sc["features"]
+                    feats = set(sc["features"]) - {"no-linkfile"}     # (not a defect class of its own)
                     if "cap-hidden-relisted" in feats:
                         tag = "c08-cap-hidden-relisted"
                     elif "double-hide" in feats:
@@ -435,7 +435,7 @@ def run(tier):
                         chk.violation({"what": "the Gopher menu differs from the documented reading of the link / .cap / abstract files",
                                        "scenario": sc.get("label", "generated"), "dir": sc["dir"], "extstrip": mode,
                                        "tree": sc["tree"], "expected_menu": want, "real_menu": got,
-                                       "features": sorted(feats), "enumeration": x["enum"]}, tag=tag)
+                                       "features": sorted(sc["features"]), "enumeration": x["enum"]}, tag=tag)
             # with the directory cache on: HEAD / item-information first, then the menu, then the menu again
             ch = run_.get("cache_history")
             if ch:
